@@ -240,6 +240,16 @@ def gen_order_cases(rng, tier):
     cases.append(("order:pc-after-finalize", N + pc() + F + pc(3) + F))
     cases.append(("order:image-after-finalize", N + pc() + F + img_calls(rng, "v") + F))
     cases.append(("order:finalize-empty-twice", N + F + F))
+    # the second public entry point of the top-level finalize (identity transformer): the same rules apply after it
+    X = [("FINX",)]
+    cases.append(("order:customized-finalize", N + pc() + X))
+    cases.append(("order:customized-finalize-twice", N + pc() + X + X))
+    cases.append(("order:finalize-after-customized-finalize", N + pc() + X + F))
+    cases.append(("order:customized-finalize-after-finalize", N + pc() + F + X))
+    cases.append(("order:pc-after-customized-finalize", N + pc() + X + pc(3) + F))
+    cases.append(("order:blob-after-customized-finalize", N + pc() + X + [("BLOB", rng.bytes(10))] + X))
+    cases.append(("order:image-after-customized-finalize", N + pc() + X + img_calls(rng, "v") + F))
+    cases.append(("order:setter-after-customized-finalize", N + pc() + X + [("SCM", "late")] + F))
     cases.append(("order:nothing-after-finalize", N + pc() + F + [("SCM", "late")] + F))
     cases.append(("order:abandoned-pc", N + pc(4, fin=False) + pc(2) + F))
     cases.append(("order:abandoned-pc-last", N + pc(2) + pc(5, fin=False) + F))
@@ -316,10 +326,10 @@ def gen_order_cases(rng, tier):
             elif c == 8:
                 calls.append(("EXT", rng.choice(["ext", "e2", "xmlx", "", "ok_1"]), "http://u"))
             else:
-                calls.append(("FIN",))
+                calls.append(("FINX",) if rng.chance(1, 3) else ("FIN",))
                 fins += 1
         if rng.chance(9, 10):
-            calls.append(("FIN",))
+            calls.append(("FINX",) if rng.chance(1, 3) else ("FIN",))
         cases.append(("order:random-walk", calls))
     return cases
 
